@@ -25,6 +25,10 @@ func appendEval(root map[string]any, at any, args ...any) any {
 		panic(fmt.Errorf("append expected an array argument, not a %T", v))
 	}
 	v = evalArg(root, at, args[1])
+	// Make a copy so the result does not share memory with the original or
+	// with the result of another append to the same list.
+	list2 := make([]any, len(list), len(list)+1)
+	_ = copy(list2, list)
 
-	return append(list, v)
+	return append(list2, v)
 }
